@@ -50,7 +50,10 @@ func extractFontType3(c pdf.Cursor, obj pdf.Object) (*dict.Type3, error) {
 
 	d := &dict.Type3{}
 
-	d.Name, _ = c.Name(fontDict["Name"])
+	d.Name, err = c.Name(fontDict["Name"])
+	if pdf.IsReadError(err) {
+		return nil, err
+	}
 
 	fd, err := pdf.DecodeOptional(c, fontDict["FontDescriptor"], font.ExtractDescriptor)
 	if err != nil {
@@ -68,9 +71,14 @@ func extractFontType3(c pdf.Cursor, obj pdf.Object) (*dict.Type3, error) {
 	if fd != nil {
 		defaultWidth = fd.MissingWidth
 	}
-	getSimpleWidths(d.Width[:], c, fontDict, defaultWidth)
+	if _, err := getSimpleWidthsErr(d.Width[:], c, fontDict, defaultWidth); err != nil {
+		return nil, err
+	}
 
-	d.ToUnicode, _ = pdf.Decode(c, fontDict["ToUnicode"], cmap.ExtractToUnicode)
+	d.ToUnicode, err = pdf.Decode(c, fontDict["ToUnicode"], cmap.ExtractToUnicode)
+	if pdf.IsReadError(err) {
+		return nil, err
+	}
 
 	// Extract CharProcs - parse each content stream
 	charProcsDict, err := c.Dict(fontDict["CharProcs"])
@@ -82,13 +90,18 @@ func extractFontType3(c pdf.Cursor, obj pdf.Object) (*dict.Type3, error) {
 	// font dict, page dict — the last is unavailable here).  Stored on
 	// d.Resources below, and used as the per-glyph fallback in the loop.
 	if fontDict["Resources"] != nil {
-		d.Resources, _ = pdf.Decode(c, fontDict["Resources"], Resources)
+		d.Resources, err = pdf.Decode(c, fontDict["Resources"], Resources)
+		if pdf.IsReadError(err) {
+			return nil, err
+		}
 	}
 
 	charProcs := make(map[pdf.Name]*dict.CharProc, len(charProcsDict))
 	for name, obj := range charProcsDict {
 		stm, err := c.Stream(obj)
-		if err != nil {
+		if pdf.IsReadError(err) {
+			return nil, err
+		} else if err != nil {
 			continue // permissive: skip malformed CharProcs
 		}
 		if stm == nil {
@@ -99,7 +112,10 @@ func extractFontType3(c pdf.Cursor, obj pdf.Object) (*dict.Type3, error) {
 		// back to the font-level dict; nil when neither is present.
 		var foundRes *content.Resources
 		if stm.Dict["Resources"] != nil {
-			foundRes, _ = pdf.Decode(c, stm.Dict["Resources"], Resources)
+			foundRes, err = pdf.Decode(c, stm.Dict["Resources"], Resources)
+			if pdf.IsReadError(err) {
+				return nil, err
+			}
 		} else if d.Resources != nil {
 			foundRes = d.Resources
 		}
@@ -134,12 +150,18 @@ func extractFontType3(c pdf.Cursor, obj pdf.Object) (*dict.Type3, error) {
 	}
 	d.CharProcs = charProcs
 
-	fontBBox, _ := c.Rectangle(fontDict["FontBBox"])
+	fontBBox, err := c.Rectangle(fontDict["FontBBox"])
+	if pdf.IsReadError(err) {
+		return nil, err
+	}
 	if fontBBox != nil && !fontBBox.IsZero() {
 		d.FontBBox = fontBBox
 	}
 
-	d.FontMatrix, _ = c.Matrix(fontDict["FontMatrix"])
+	d.FontMatrix, err = c.Matrix(fontDict["FontMatrix"])
+	if pdf.IsReadError(err) {
+		return nil, err
+	}
 
 	repairType3(d, c.Getter())
 
